@@ -398,12 +398,22 @@ func (r *runner) classify(msg []byte, et int8) {
 // service / a name without a colon, always echoing the full request name and the seqid.
 
 type recHandler struct {
-	svc  string
-	seen *[]string
+	svc    string
+	seen   *[]string
+	strict bool // knows only the method "ping"; "boom" fails; anything else is an unknown method
 }
 
 func (h recHandler) Handle(name string, body wire.Value) (wire.Value, error) {
 	*h.seen = append(*h.seen, h.svc+"<-"+name)
+	if h.strict {
+		switch name {
+		case "ping":
+		case "boom":
+			return wire.Value{}, fmt.Errorf("handler failed")
+		default:
+			return wire.Value{}, verifhook.EnvelopeErrUnknownMethod(name) // the way generated handlers report it: the name as they received it
+		}
+	}
 	return body, nil
 }
 
@@ -417,7 +427,7 @@ func (t serverTransport) Send(b []byte) ([]byte, error) {
 	return t.srv.Handle(b)
 }
 
-var muxNames = []string{"Svc:ping", "Svc:ns:ping", "Svc::ping", "Svc:ping:", "Svc:", ":ping", "Outer:Inner:ping", "Outer:Inner:a:b", "Unknown:ping", "nocolon", "Svc:ns", "svc:ping", "Svc:ns:"}
+var muxNames = []string{"Strict:ping", "Strict:frobnicate", "Strict:boom", "Strict:ns:ping", "Svc:ping", "Svc:ns:ping", "Svc::ping", "Svc:ping:", "Svc:", ":ping", "Outer:Inner:ping", "Outer:Inner:a:b", "Unknown:ping", "nocolon", "Svc:ns", "svc:ping", "Svc:ns:"}
 
 func (r *runner) multiplexFamily() {
 	w := r.w
@@ -433,12 +443,13 @@ func (r *runner) multiplexFamily() {
 					w.Count("multiplex_server_cases", 1)
 					var seen []string
 					inner := verifhook.NewMultiplexHandler()
-					inner.Put("Inner", recHandler{"Outer/Inner", &seen})
+					inner.Put("Inner", recHandler{svc: "Outer/Inner", seen: &seen})
 					mux := verifhook.NewMultiplexHandler()
-					mux.Put("Svc", recHandler{"Svc", &seen})
-					mux.Put("Svc:ns", recHandler{"Svc:ns", &seen}) // unreachable by a first-colon split
+					mux.Put("Svc", recHandler{svc: "Svc", seen: &seen})
+					mux.Put("Strict", recHandler{svc: "Strict", seen: &seen, strict: true})
+					mux.Put("Svc:ns", recHandler{svc: "Svc:ns", seen: &seen}) // unreachable by a first-colon split
 					mux.Put("Outer", inner)
-					mux.Put("", recHandler{"<empty>", &seen})
+					mux.Put("", recHandler{svc: "<empty>", seen: &seen})
 					srv := verifhook.NewEnvelopeServer(binary.Default, mux)
 					env := tbin.Envelope{Name: []byte(name), Type: 1, SeqID: seq}
 					var msg []byte
@@ -471,6 +482,11 @@ func (r *runner) multiplexFamily() {
 						switch svc {
 						case "Svc":
 							wantType, wantSeen = 2, "Svc<-"+method
+						case "Strict":
+							wantSeen = "Strict<-" + method
+							if method == "ping" {
+								wantType = 2
+							}
 						case "":
 							wantType, wantSeen = 2, "<empty><-"+method
 						case "Outer":
@@ -513,9 +529,9 @@ func (r *runner) multiplexFamily() {
 			var seen []string
 			var sent [][]byte
 			inner := verifhook.NewMultiplexHandler()
-			inner.Put("Inner", recHandler{"Outer/Inner", &seen})
+			inner.Put("Inner", recHandler{svc: "Outer/Inner", seen: &seen})
 			mux := verifhook.NewMultiplexHandler()
-			mux.Put("Svc", recHandler{"Svc", &seen})
+			mux.Put("Svc", recHandler{svc: "Svc", seen: &seen})
 			mux.Put("Outer", inner)
 			srv := verifhook.NewEnvelopeServer(binary.Default, mux)
 			var cl verifhook.EnvelopeClient = verifhook.NewEnvelopeClient(binary.Default, serverTransport{srv, &sent})
